@@ -31,7 +31,7 @@ Proof.
       * destruct C as (C1 & C2). split; auto.
   - (* producer *)
     destruct (pst s) eqn:Es; [destruct (pprog s) eqn:Ep|..].
-    + unfold sstep. rewrite Es, Ep. simpl. rewrite Q1, Ep. exact R.
+    + unfold sstep. rewrite Es, Ep. simpl. rewrite Q1; try rewrite Ep. exact R.
     + pose proof (p_step_ok s m R) as H. unfold sstep. rewrite Es, Ep in *.
       destruct (p_micro (mem s) (p :: l) PIdle) as [[[ls p'] ac] r]. simpl. apply H. right. congruence.
     + pose proof (p_step_ok s m R) as H. unfold sstep. rewrite Es in *.
@@ -42,15 +42,15 @@ Proof.
     assert (G : forall c, cinv s m c -> c <> CIdle ->
                 step_ok (fst (c_apply s c)) (smstep m StepC (snd (c_apply s c)))).
     { intros c Hc Hn. pose proof (c_step_ok s m c R Hc Hn) as H. destruct (c_apply s c). exact H. }
-    unfold sstep. destruct (cst s) eqn:Es; try (apply G; [rewrite <- Es; exact C|congruence]).
+    unfold sstep. destruct (cst s) eqn:Es; try (apply G; [first [exact C|rewrite <- Es; exact C]|congruence]).
     destruct (cprog s) as [|[|] t] eqn:Ep.
-    + simpl. rewrite Q2, Ep. exact R.
+    + simpl. rewrite Q2; try rewrite Ep. exact R.
     + destruct (enter (mem s) 0 0) as [c|] eqn:En.
       * apply G.
         -- apply (enter_inv s m 0 0); auto. exists t. auto.
         -- unfold enter in En. destruct (nth_error (mem s) 0) as [[? ? ?|?]|]; inversion En; congruence.
-      * simpl. rewrite Q2, Ep. mk_srel; auto. exact P.
-    + simpl. rewrite Q2, Ep. mk_srel; auto. exact P.
+      * simpl. rewrite Q2; try rewrite Ep. mk_srel; auto; try exact P.
+    + simpl. rewrite Q2; try rewrite Ep. mk_srel; auto; try exact P.
   - simpl. rewrite (final_ok _ _ F). exact R.
 Qed.
 
@@ -61,8 +61,8 @@ Lemma init_level_rel s : 1 <= s -> lrel (init_level s) (repeat 0%N s).
 Proof.
   intros H. unfold init_level. destruct (s =? 1) eqn:E.
   - apply Nat.eqb_eq in E. subst s. constructor; simpl; auto.
-    + intros [|[|j]]; simpl; lia.
-  - apply Nat.eqb_neq in E. constructor; simpl; auto.
+    intros [|[|j]]; simpl; lia.
+  - apply Nat.eqb_neq in E. constructor; simpl; auto; try lia.
     + apply repeat_length.
     + intros j. rewrite nth_repeat0. lia.
     + apply nth_ext_len with (d := 0%N).
@@ -70,7 +70,6 @@ Proof.
       * intros b Hb. rewrite repeat_length in Hb. rewrite repeat_nth by auto.
         rewrite nth_abs_bytes by (rewrite repeat_length; auto).
         unfold pack4. rewrite !nth_repeat0. reflexivity.
-    + lia.
 Qed.
 
 Lemma init_srel sizes : wf_sizes sizes -> srel (sinit sizes) (sminit sizes).
@@ -87,7 +86,9 @@ Proof.
   induction ops as [|o ops IH]; intros s m pos R; simpl; auto.
   pose proof (sstep_ok s m o R) as H.
   destruct (sstep s o) as [s' r]. simpl in *.
-  destruct (smstep m o r) as [[|t] m']; simpl in H; auto.
+  destruct (smstep m o r) as [[|t] m']; simpl in H.
+  - apply IH. exact H.
+  - exact H.
 Qed.
 
 (* ------------------------------------------------------------------ windows *)
@@ -126,9 +127,9 @@ Lemma monitor_overlap_free : forall tr m pos p t,
   overlap_free_from (pwin m, cwin m) tr = true ->
   smonitor_from m pos tr = Some (p, t) -> t <= 10.
 Proof.
-  induction tr as [|[o r] tr IH]; intros m pos p t Hf Hm; simpl in *; [discriminate|].
+  induction tr as [|[o r] tr IH]; intros m pos p t Hf Hm; cbn [overlap_free_from smonitor_from] in *; [discriminate|].
   pose proof (smstep_wstep m o r) as W.
-  destruct (wstep (pwin m, cwin m) o r) as [w' d] eqn:Ew. simpl in W.
+  destruct (wstep (pwin m, cwin m) o r) as [w' d] eqn:Ew. cbn [fst snd] in W.
   apply andb_true_iff in Hf. destruct Hf as [Hd Hf]. apply negb_true_iff in Hd. subst d.
   destruct (smstep m o r) as [[|t'] m'].
   - subst w'. eapply IH; eauto.
